@@ -1600,6 +1600,7 @@ B('c04-disc-empty-no-null', 'C04', 'R04.i', VMDISC,
 B('c04-discm-empty-indexed', 'C04', 'R04.i', VMDISC,
   "        if name_list and len(name_list) > 0:", "        if name_list and len(name_list) >= 0:")
 B('c04-counter-not-cleared', 'C04', 'R04.j', LOOP,
-  "            code_gen.add_instruction(OpCode.MOVEQ, 0, LoopVar.COUNTER)\n", "")
+  "            code_gen.add_instruction(OpCode.MOVEQ, 0, LoopVar.COUNTER)\n            self._loop_type = _LoopType.LIST",
+  "            self._loop_type = _LoopType.LIST")
 B('c04-cycle-full-turn-wrong', 'C04', 'R04.j', LOOP,
   "        code_gen.push(65536)", "        code_gen.push(65535)")
